@@ -221,6 +221,36 @@ func TestVerifC14Start(t *testing.T) {
 			time.Sleep(time.Millisecond)
 		}
 		before := n1.jobs(t, refIdx)
+		// what must be there: every event a filter selects (selected); of those, everything whose subscriber did not
+		// complete it must still be on its shelf (mustRemain)
+		var selected, mustRemain []string
+		for si, sub := range c14sSubs {
+			for i, tx := range txs {
+				if sub.ptype == "" || tx.PayloadType() == sub.ptype {
+					selected = append(selected, fmt.Sprintf("%s.%d", sub.name, i))
+					if mode[[2]int{si, i}] != "done" {
+						mustRemain = append(mustRemain, fmt.Sprintf("%s.%d", sub.name, i))
+					}
+				}
+			}
+		}
+		// operator action on a live node: remove the failed events of ONE subscriber whose error starts with a prefix
+		cleanup := ""
+		if round%2 == 1 {
+			target := c14sSubs[rng.Intn(len(c14sSubs))].name
+			prefix := []string{"keeps", "keeps failing", "zzz", "failing"}[rng.Intn(4)]
+			cerr := n1.network.CleanupSubscriberEvents(target, prefix)
+			afterCleanup := n1.jobs(t, refIdx)
+			var removed []string
+			for k := range before {
+				if _, ok := afterCleanup[k]; !ok {
+					removed = append(removed, fmt.Sprintf("%s:%d", k, before[k]))
+				}
+			}
+			sort.Strings(removed)
+			cleanup = fmt.Sprintf(" cleanup=%s/%s/%v removed=[%s]", target, strings.ReplaceAll(prefix, " ", "_"), cerr == nil, strings.Join(removed, ","))
+			before = afterCleanup
+		}
 		n1.stop()
 
 		// run 2: healthy subscribers; the real Network.Start
@@ -245,7 +275,9 @@ func TestVerifC14Start(t *testing.T) {
 		if startErr != nil {
 			e = startErr.Error()
 		}
-		lines = append(lines, fmt.Sprintf("round=%d start=%s unfinished=[%s] attempted=[%s] left=[%s] missed=[%s]", round, e, c14sFmt(before), c14sFmt(called), c14sFmt(after), strings.Join(missed, ",")))
+		sort.Strings(selected)
+		sort.Strings(mustRemain)
+		lines = append(lines, fmt.Sprintf("round=%d start=%s unfinished=[%s] attempted=[%s] left=[%s] missed=[%s] selected=[%s] mustremain=[%s]%s", round, e, c14sFmt(before), c14sFmt(called), c14sFmt(after), strings.Join(missed, ","), strings.Join(selected, ","), strings.Join(mustRemain, ","), cleanup))
 		mu.Unlock()
 		n2.stop()
 		os.Remove(path)
